@@ -4,6 +4,7 @@
   Model: GrogModel/Exec.lean, GrogModel/Build.lean.
 -/
 import GrogModel.Lemmas.BuildNoop
+import GrogModel.DirVal
 set_option linter.unusedSectionVars false
 set_option linter.unusedVariables false
 set_option linter.unusedSimpArgs false
@@ -87,6 +88,13 @@ theorem unchanged_not_executed (P : Params κ) (cfg : Cfg) (defs : Defs) (fuel :
 theorem restore_total (t : Target) (r : Result κ) (c : Cache κ) (fs fs' : FS) :
     (restore t r c fs).isSome = (restore t r c fs').isSome := by
   unfold restore; split <;> rfl
+
+/-- the directory case of `restore_total`, on directory values as sets of entries (`GrogModel/DirVal.lean`): what
+    `Load` leaves is the stored tree whatever was at the destination — absent, stale extra entries (also symlinks),
+    modified or missing entries — so the stored value alone decides. -/
+theorem dir_restore_total (cur cur' : Option DirVal.Tree) (stored : DirVal.Tree) :
+    DirVal.restoreDir cur stored = stored ∧ DirVal.restoreDir cur stored = DirVal.restoreDir cur' stored :=
+  ⟨DirVal.restoreDir_exact cur stored, DirVal.restoreDir_ignores_destination cur cur' stored⟩
 
 /-- **key_location_free.** The key-state has no field for the workspace root, the time or the host; of the
     workspace it contains only the contents of the resolved inputs. -/
